@@ -340,9 +340,10 @@ theorem fraud_punished_foreign_proposer_stays_run (p : Params) (ops : List Op) (
     in this order: rollapp known; genesis bridge done and not above the last valid height; `lv + 1`
     does not overflow uint64; the revert plan — which reports "no state").  So with `states = []`:
     `forkNotAllowed` when `tph = 0 ∨ lv < tph`; else `invalid` when `(lv + 1) % 2 ^ 64 = 0`; else
-    `noState`.  (In histories of M-Core a rollapp without states has `tph = 0` — the `bridge` op needs
-    a latest height and a fork never empties the state list — so there the error is `forkNotAllowed`;
-    the other two cases are stated for completeness of the guard order.) -/
+    `noState`.  (Remark, not a theorem of this file: in histories of M-Core a rollapp without states
+    has `tph = 0` — the `bridge` op needs a latest height and a fork never empties the state list — so
+    there the first case applies, see the `decide` example at the end; the other two cases pin the
+    guard order on any record.) -/
 theorem fork_refused_no_state_named (s : St) (ra lv : Nat) (r : Rollapp) (hg : getRa s ra = some r)
     (hs : r.states = []) :
     (r.tph = 0 ∨ lv < r.tph → hardFork s ra lv = .error .forkNotAllowed) ∧
